@@ -311,6 +311,32 @@ fn case_vec_kinds(n: usize, variant: u32) -> (u64, Vec<String>) {
 				c.expect(&t, *id, 3, "&mut Vec through all three kinds");
 			}
 		}
+		12 => {
+			// collections dropped by an unwind (a panic in the owning frame, and a panic inside a
+			// scoped closure): their values are still dropped exactly once
+			let r = catch_unwind(AssertUnwindSafe(|| {
+				let _a = BoxedLockCollection::new(c.ms(n));
+				let _b = RetryingLockCollection::new(c.rs(n));
+				let _c = OwnedLockCollection::new(c.ms(n).into_boxed_slice());
+				let _d = BoxedLockCollection::new((c.m(), OwnedLockCollection::new(c.rs(n))));
+				let data = c.ms(n);
+				let _e = RefLockCollection::new(&data);
+				std::panic::resume_unwind(Box::new(0u8));
+			}));
+			let _ = r;
+			let r = catch_unwind(AssertUnwindSafe(|| {
+				let col = BoxedLockCollection::new(c.ms(n + 1));
+				col.scoped_lock(key(), |_| std::panic::resume_unwind(Box::new(0u8)));
+			}));
+			let _ = r;
+			let r = catch_unwind(AssertUnwindSafe(|| {
+				let col = BoxedLockCollection::new(c.rs(n + 1));
+				let _g = col.read(key());
+				std::panic::resume_unwind(Box::new(0u8));
+			}));
+			let _ = r;
+			drop(data);
+		}
 		_ => {
 			// try_new accept (references) and reject (a duplicate next to owned values)
 			let extra = c.m();
@@ -673,7 +699,7 @@ pub fn run(cfg: &RunCfg) -> Report {
 	let reps = if cfg.thorough { 8 } else { 2 };
 	for _ in 0..reps {
 		for n in 0..=4usize {
-			for variant in 0..=12u32 {
+			for variant in 0..=13u32 {
 				cases.push((0, n, variant));
 			}
 			cases.push((1, n, 0));
@@ -755,6 +781,6 @@ pub fn run(cfg: &RunCfg) -> Report {
 			}
 		}
 	});
-	rep.rule = "drop-counting tokens (unique id per construction, table id -> drops) through every construction/destruction path: Vec / Box<[T]> / [T; 0..4] / tuples of arity 1, 3, 4, 7 / nested collections / &mut containers x boxed, ref, owned, retrying collections x {new, new_ref, try_new accept and reject (owned values next to a duplicate reference), from, from_iter, default, extend, into_child, into_inner, into_iter fully and partially consumed, child_mut replacement, get_mut, plain drop, drop after a guard was forgotten, Poisonable into_inner/into_child Ok and poisoned}; values are written under a lock (guard and scoped) first and must come back at their declared positions with the last written value; every token must be dropped exactly once; distinct = distinct (path, size) cases".into();
+	rep.rule = "drop-counting tokens (unique id per construction, table id -> drops) through every construction/destruction path: Vec / Box<[T]> / [T; 0..4] / tuples of arity 1, 3, 4, 7 / nested collections / &mut containers x boxed, ref, owned, retrying collections x {new, new_ref, try_new accept and reject (owned values next to a duplicate reference), from, from_iter, default, extend, into_child, into_inner, into_iter fully and partially consumed, child_mut replacement, get_mut, plain drop, drop by an unwind (panic in the owning frame / in a scoped closure / under a guard), drop after a guard was forgotten, Poisonable into_inner/into_child Ok and poisoned}; values are written under a lock (guard and scoped) first and must come back at their declared positions with the last written value; every token must be dropped exactly once; distinct = distinct (path, size) cases".into();
 	rep
 }
